@@ -198,7 +198,160 @@ def h_merge(ctx, case):
     return 'ok'
 
 
+def setup_abc(case, mode):
+    import warnings
+    from symx import mpmodel
+    from harness.common import patch
+    warnings.simplefilter('ignore')
+    import cell_type_mapper.cli.precompute_stats_abc as ABC
+    import cell_type_mapper.diff_exp.precompute_from_anndata as PFA
+    import cell_type_mapper.anndata_iterator.anndata_iterator as AI
+    patch(PFA, 'multiprocessing', mpmodel.multiprocessing)
+    for m in (ABC, PFA, AI):
+        patch(m, 'print', lambda *a, **k: None)
+
+
+def h_abc_runner(ctx, case):
+    """the data-release statistics runner (PrecomputationABCRunner.run
+    with a fully specified argument dict) on real release tables and h5ad
+    files: every statistics file it writes - one per dataset and the
+    combined one, or a single one - holds for every cluster the number of
+    member cells (of that dataset) and their summed log2(CPM+1)"""
+    import json
+    import os
+    import shutil
+    import anndata
+    import h5py
+    import numpy as np
+    import pandas as pd
+    import scipy.sparse as sp
+    from symx import mpmodel
+    from harness.common import sandbox_root
+    import cell_type_mapper.cli.precompute_stats_abc as ABC
+    root = os.path.join(sandbox_root(), 'abc')
+    shutil.rmtree(root, ignore_errors=True)
+    os.makedirs(os.path.join(root, 'scratch'))
+    clusters = ['cl0', 'cl1', 'cl2']
+    alias = {'cl0': '10', 'cl1': '11', 'cl2': '12'}
+    parent = {'cl0': 'A', 'cl1': 'A', 'cl2': 'B'}
+    n = 12
+    # cell labels as the releases have them: alphanumeric barcodes, or
+    # plain digit strings
+    style = ['barcode', 'digits'][ctx.choice('cell_label_style', 2)]
+    names = [(f"AAC{ii:03d}-1" if style == 'barcode' else str(1000 + ii))
+             for ii in range(n)]
+    cl_of = [clusters[ii % 3] for ii in range(n)]
+    ds_of = [['dsA', 'dsB'][(ii // 3) % 2] for ii in range(n)]
+    with_ds = ctx.flag('metadata_has_a_dataset_column')
+    split = ctx.flag('split_by_dataset')
+    nproc = 1 + ctx.choice('n_processors-1', 2)
+    x = np.array([[1.0 + ((3 * i + 5 * g) % 7) for g in range(3)]
+                  for i in range(n)])
+    meta = os.path.join(root, 'cell_metadata.csv')
+    with open(meta, 'w') as f:
+        f.write('cell_label,cluster_alias' +
+                (',dataset_label' if with_ds else '') + '\n')
+        for c, cl, ds in zip(names, cl_of, ds_of):
+            f.write(f'{c},{alias[cl]}' + (f',{ds}' if with_ds else '')
+                    + '\n')
+    memb = os.path.join(root, 'membership.csv')
+    with open(memb, 'w') as f:
+        f.write('cluster_annotation_term_set_label,'
+                'cluster_annotation_term_set_name,'
+                'cluster_annotation_term_label,'
+                'cluster_annotation_term_name,cluster_alias\n')
+        for cl in clusters:
+            f.write(f'CLUS,cluster,{cl},{cl}_name,{alias[cl]}\n')
+        for p_ in ('A', 'B'):
+            f.write(f'CLAS,class,{p_},{p_}_name,{p_}_alias\n')
+    annot = os.path.join(root, 'annotation.csv')
+    with open(annot, 'w') as f:
+        f.write('label,cluster_annotation_term_set_label,'
+                'parent_term_label,parent_term_set_label\n')
+        for cl in clusters:
+            f.write(f'{cl},CLUS,{parent[cl]},CLAS\n')
+        for p_ in ('A', 'B'):
+            f.write(f'{p_},CLAS,,\n')
+    h5ad = os.path.join(root, 'cells.h5ad')
+    anndata.AnnData(X=sp.csr_matrix(x), obs=pd.DataFrame(index=names),
+                    var=pd.DataFrame(index=['g0', 'g1', 'g2'])
+                    ).write_h5ad(h5ad)
+    out = os.path.join(root, 'stats.h5')
+    runner = ABC.PrecomputationABCRunner.__new__(ABC.PrecomputationABCRunner)
+    runner.args = {
+        'h5ad_path_list': [h5ad], 'cell_metadata_path': meta,
+        'cluster_annotation_path': annot, 'cluster_membership_path': memb,
+        'hierarchy': ['CLAS', 'CLUS'], 'normalization': 'raw',
+        'output_path': out, 'split_by_dataset': split, 'clobber': True,
+        'n_processors': nproc, 'tmp_dir': os.path.join(root, 'scratch'),
+        'log_level': 'ERROR', 'input_json': None, 'output_json': None}
+    mpmodel.SCHED.reset(K=0)
+    try:
+        runner.run()
+    except Exception as e:
+        ctx.exception(e)
+        return 'EXC ' + type(e).__name__
+    ctx.reach('ran')
+    ln = np.log2(1.0 + 1.0e6 * x / x.sum(axis=1)[:, None])
+    if split and with_ds:
+        files = {ds: os.path.join(root, f'stats.{ds}.h5')
+                 for ds in ('dsA', 'dsB', 'combined')}
+    else:
+        files = {'all': out}
+    for tag, path in files.items():
+        ok = os.path.exists(path)
+        ctx.check(ok, f'statistics file for {tag} written')
+        if not ok:
+            continue
+        with h5py.File(path, 'r') as f:
+            c2r = json.loads(f['cluster_to_row'][()].decode('utf-8'))
+            nc, sm = f['n_cells'][()], f['sum'][()]
+        for cl in clusters:
+            def members(ds):
+                return np.array([c == cl and (ds is None or d == ds)
+                                 for c, d in zip(cl_of, ds_of)])
+            if tag == 'combined':
+                # merge_precompute_files: each cluster's row is taken from
+                # the dataset in which the cluster has the most cells
+                per = {ds: members(ds) for ds in ('dsA', 'dsB')}
+                best = max(int(m.sum()) for m in per.values())
+                ctx.check(int(nc[c2r[cl]]) == best,
+                          'combined file: n_cells of the dataset with the '
+                          f'most cells of the cluster ({style} cell labels)')
+                ctx.check(any(int(m.sum()) == best and np.allclose(
+                    sm[c2r[cl]], ln[m].sum(axis=0), rtol=1e-6, atol=1e-9)
+                    for m in per.values()),
+                    'combined file: sums of that dataset')
+                continue
+            member = members(None if tag == 'all' else tag)
+            ctx.check(int(nc[c2r[cl]]) == int(member.sum()),
+                      f'n_cells == number of member cells ({style} cell '
+                      f'labels, file: {tag})')
+            ctx.check(bool(np.allclose(sm[c2r[cl]], ln[member].sum(axis=0),
+                                       rtol=1e-6, atol=1e-9)),
+                      f'sum == summed log2(CPM+1) of the member cells '
+                      f'(file: {tag})')
+    left = os.listdir(os.path.join(root, 'scratch'))
+    ctx.check(left == [], f'scratch directory empty afterwards: {left[:3]}')
+    return 'ok'
+
+
 HARNESSES = [
+    Harness('abc_release_runner', h_abc_runner, setup=setup_abc,
+            cases=[{}],
+            funcs=['cli.precompute_stats_abc.PrecomputationABCRunner.run',
+                   'create_dataset_to_output_map',
+                   'TaxonomyTree.from_data_release',
+                   'precompute_summary_stats_from_h5ad_list_and_tree',
+                   'precompute_utils.merge_precompute_files'],
+            stubs=['argschema parsing -> fully specified argument dict '
+                   '(PrecomputationABCRunner.__new__)',
+                   'multiprocessing -> scheduler model'],
+            bounds='real release tables and one real h5ad file (12 cells, 3 '
+                   'clusters, 2 datasets); cell labels as barcodes or as '
+                   'digit strings; with / without a dataset column; '
+                   'split_by_dataset on / off; 1-2 workers',
+            expect_reach=['ran']),
     Harness('statistics_stage', h_stage, setup=RS.setup,
             cases=[{'cells': 2, 'genes': 1, 'clusters': 2},
                    {'cells': 2, 'genes': 1, 'clusters': 2, 'via_tree': True,
